@@ -423,7 +423,10 @@ Record rreq := mkReq {
   rq_hi : bool;           (* HIGHER_CONSISTENCY *)
   rq_key : N;             (* request id: equal ids = equal request (tuple key, type, context) *)
   rq_ref : N;             (* answer of a cache-less server on the same store state (opaque code) *)
-  rq_obs : N              (* answer of the server under test *)
+  rq_obs : N;             (* answer of the server under test *)
+  rq_clobber : list N     (* ids of the OTHER Check requests whose top-level cache key this request may
+                             (re)write as one of its dispatched sub-problems / candidate checks: same
+                             user, same context, same contextual tuples *)
 }.
 
 Inductive rop := RWrite | RReq (r : rreq).
@@ -459,6 +462,13 @@ Definition storable (a : N) : bool := N.leb a 1.
 Definition top_tracked (c : rcfg) (r : rreq) : bool :=
   is_check (rq_api r) && r_query c && negb (r_v2 c).
 
+(* the request's sub-problems pass through the default engine's query cache *)
+Definition uses_query (c : rcfg) (r : rreq) : bool :=
+  r_query c && ((is_check (rq_api r) && negb (r_v2 c)) || N.eqb (rq_api r) 2).
+
+Definition forget (ks : list N) (top : list (N * N)) : list (N * N) :=
+  filter (fun e => negb (existsb (N.eqb (fst e)) ks)) top.
+
 Definition predict (c : rcfg) (st : rstate) (r : rreq) : prediction :=
   if rq_hi r then PExact (rq_ref r)
   else if negb (caches_on c (rq_api r)) then PExact (rq_ref r)
@@ -471,14 +481,17 @@ Definition rstep (c : rcfg) (st : rstate) (o : rop) : rstate :=
   match o with
   | RWrite => mkRS (rs_top st) (rs_pop st) (rs_pop st || rs_dirty st)
   | RReq r =>
-      let top' :=
-        if top_tracked c r && storable (rq_obs r) then
-          match (if rq_hi r then None else nlook (rs_top st) (rq_key r)) with
-          | Some _ => rs_top st                                  (* hit: nothing is stored *)
-          | None => (rq_key r, rq_obs r) :: rs_top st            (* computed: stored, HIGHER included *)
-          end
-        else rs_top st in
-      mkRS top' (rs_pop st || leaves_entries c r) (rs_dirty st)
+      let hit := if rq_hi r || negb (top_tracked c r) || r_ctrl c then None else nlook (rs_top st) (rq_key r) in
+      match hit with
+      | Some _ => st                                             (* top-level hit: nothing is evaluated *)
+      | None =>
+          (* evaluated: sub-problems of the same partition may have been rewritten (forget them) *)
+          let top1 := if uses_query c r then forget (rq_clobber r) (rs_top st) else rs_top st in
+          let top2 := if top_tracked c r && storable (rq_obs r)
+                      then (rq_key r, rq_obs r) :: top1      (* stored, HIGHER included *)
+                      else top1 in
+          mkRS top2 (rs_pop st || leaves_entries c r) (rs_dirty st)
+      end
   end.
 
 Definition agrees (p : prediction) (obs : N) : bool :=
@@ -504,8 +517,3 @@ Fixpoint predictions (c : rcfg) (st : rstate) (h : list rop) : list (rreq * pred
   | RWrite :: h' => predictions c (rstep c st RWrite) h'
   | RReq r :: h' => (r, predict c st r) :: predictions c (rstep c st (RReq r)) h'
   end.
-
-(* for the oracle's statistics: the static checks evaluated by the extracted code on the table that
-   was generated for this run (number of rows, all rows pass, wrappers pass) *)
-Definition table_rows_ok : N * bool * bool :=
-  (N.of_nat (List.length c10_table), forallb row_ok c10_table, wrappers_ok gen_wrappers).
